@@ -192,11 +192,25 @@ def Heap.rstep (h : Heap) (x : Nat) : Heap :=
   let h1 := h.recycleSlice x
   { h1 with cells := upd h1.cells x none }
 
-/-- `Recycle()`: the name is unbound (no use after `Recycle`); each field's **address** goes to the pool
-and the field is set to nil (order of the fields as in the Go code: sequence, feature, qualities) -/
-def Heap.recycleObj (h : Heap) (a : String) (base : Nat) : Heap :=
+/-- `Recycle()` **as it was** (`RecycleSlice(&sequence.sequence); sequence.sequence = nil`, …): each
+field's own address went to the pool and the field was set to nil afterwards, so the pooled variable
+showed nil and its array was never handed out again.  Kept for reference
+(`Lemmas/SeqHeapOps.lean: rstep_loose`). -/
+def Heap.recycleObjOld (h : Heap) (a : String) (base : Nat) : Heap :=
   let h0 : Heap := { h with objs := fun n => if n = a then none else h.objs n }
   ((h0.rstep base).rstep (base + 2)).rstep (base + 1)
+
+/-- the name `a` is unbound (no use after `Recycle`) -/
+def Heap.unbind (h : Heap) (a : String) : Heap :=
+  { h with objs := fun n => if n = a then none else h.objs n }
+
+/-- `Recycle()` as it is now (biosequence.go: `seq, feature, qualities := s.sequence, s.feature,
+s.qualities; s.sequence, s.feature, s.qualities = nil, nil, nil; RecycleSlice(&seq);
+RecycleSlice(&feature); RecycleSlice(&qualities)`): every slice moves to a local variable whose address
+goes to the pool — the pooled variable shows the truncated slice, so a later `GetSlice` **does** hand the
+array of the recycled object out again (order: sequence, feature, qualities).  The name is unbound. -/
+def Heap.recycleObj (h : Heap) (a : String) (base : Nat) : Heap :=
+  (((h.detachRecycle base).detachRecycle (base + 2)).detachRecycle (base + 1)).unbind a
 
 /-- `buf := GetSlice(n); …fill…; RecycleSlice(&buf)` as `obialign` does with its scratch buffers -/
 def Heap.scratch (h : Heap) (n : Nat) (fill : UInt8) (k : Nat) : Heap :=
